@@ -11,7 +11,9 @@ Record case := mkcase {
   c_obs_session : list (res nat);                  (* class returned by each request, labelled by first occurrence *)
   c_obs_fields : res (list (string * option string));   (* dataclasses.fields of the first request's class *)
   c_obs_call : option (call string);               (* raw args/kwargs the recording stub received *)
-  c_obs_result : res (list (string * string))      (* how it ended; Ok = the parameter bindings inside the callable *)
+  c_obs_result : res (list (string * string));     (* how it ended; Ok = the parameter bindings inside the callable *)
+  c_untyped : list (string * dkind);               (* un-annotated parameters with a default: what kind of value it is *)
+  c_obs_inferred : list (string * ity)             (* the type of their field in the first request's class, as observed *)
 }.
 
 Definition vals_of (l : list (string * string)) (n : string) : string :=
@@ -30,6 +32,13 @@ Definition model_fields (s : sig string) (r : cfreq string) : res (list (string 
   let fs := cf_fields facts_gen (ignore_names (rq_ignore r)) (rq_over r) s in
   match setup facts_gen fs with Err e => Err e | Ok _ => Ok (map (fun f => (fl_name f, fl_default f)) fs) end.
 
+Definition model_inferred (s : sig string) (r : cfreq string) (untyped : list (string * dkind)) : list (string * ity) :=
+  let names := map fl_name (cf_fields facts_gen (ignore_names (rq_ignore r)) (rq_over r) s) in
+  map (fun nd => (fst nd, infer (f_infer facts_gen) (snd nd)))
+      (filter (fun nd => str_in (fst nd) names && negb (str_in (fst nd) (keys (rq_over r)))) untyped).
+Definition inferred_eqb (a b : list (string * ity)) : bool :=
+  list_eqb (fun x y => String.eqb (fst x) (fst y) && ity_eqb (snd x) (snd y)) a b.
+
 Definition in_scope (c : case) : bool := true.
 
 Definition model_ok (c : case) : bool :=
@@ -42,6 +51,7 @@ Definition model_ok (c : case) : bool :=
     | r0 :: _ =>
         list_eqb (res_eqb Nat.eqb) (snd (cf_session String.eqb facts_gen c.(c_sig) ([], 0) c.(c_reqs))) c.(c_obs_session)
         && fields_eqb (model_fields c.(c_sig) r0) c.(c_obs_fields)
+        && inferred_eqb (model_inferred c.(c_sig) r0 c.(c_untyped)) c.(c_obs_inferred)
         && trace_eqb (cf_run facts_gen c.(c_sig) (ignore_names (rq_ignore r0)) (rq_over r0) (parsed_of c) c.(c_xpos) c.(c_xkw))
                      observed
     end.
@@ -57,6 +67,7 @@ Definition spec_ok (c : case) : bool :=
     | r0 :: _ =>
         spec_session String.eqb c.(c_reqs) c.(c_obs_session)
         && spec_fields String.eqb c.(c_sig) (ignore_names (rq_ignore r0)) (rq_over r0) c.(c_obs_fields)
+        && spec_inferred c.(c_untyped) c.(c_obs_inferred)
         && match c.(c_obs_fields) with
            | Ok fs => spec_partial_call String.eqb c.(c_sig) (map fst fs) (parsed_of c) c.(c_xpos) c.(c_xkw) observed
            | Err _ => false
